@@ -166,4 +166,237 @@ theorem ackScan_mid (b size : Nat) (all M T : List Run) (de : Nat) (pre : Colour
     rw [ih _ _ (fun r hr => hM r (by simp [hr]))]
     simp; congr 1; omega
 
+/-! ### abstraction helpers -/
+
+theorem colourAt_lt_head (l : List Run) (p : Colour) (x : Nat) (h : ∀ r, l.head? = some r → x < r.1) :
+    colourAt l p x = p := by
+  have := colourAt_append_gt [] l p x h
+  simpa [colourAt] using this
+
+theorem colourAt_same (M : List Run) (c : Colour) (x : Nat) (h : ∀ r ∈ M, r.2 = c) : colourAt M c x = c := by
+  induction M with
+  | nil => rfl
+  | cons r M ih =>
+    obtain ⟨o, c'⟩ := r
+    have hc : c' = c := h (o, c') (by simp)
+    subst hc
+    simp only [colourAt]
+    split
+    · rfl
+    · exact ih (fun r hr => h r (by simp [hr]))
+
+theorem colourAt_append_congr (P X Y : List Run) (p : Colour) (x : Nat)
+    (h : colourAt X (lastCol P p) x = colourAt Y (lastCol P p) x) :
+    colourAt (P ++ X) p x = colourAt (P ++ Y) p x := by
+  induction P generalizing p with
+  | nil => simpa [lastCol_nil] using h
+  | cons r P ih =>
+    obtain ⟨o, c⟩ := r
+    simp only [List.cons_append, colourAt]
+    split
+    · rfl
+    · exact ih c (by simpa [lastCol_cons] using h)
+
+theorem lastCol_append (A B : List Run) (p : Colour) : lastCol (A ++ B) p = lastCol B (lastCol A p) := by
+  induction A generalizing p with
+  | nil => simp [lastCol_nil]
+  | cons r A ih => simp only [List.cons_append, lastCol_cons, ih]
+
+theorem lastCol_single (r : Run) (p : Colour) : lastCol [r] p = r.2 := by
+  simp [lastCol_cons, lastCol_nil]
+
+theorem sorted_head_all (S : List Run) (a : Nat) (hs : Sorted S) (h : ∀ r, S.head? = some r → a ≤ r.1) :
+    ∀ r ∈ S, a ≤ r.1 := by
+  cases S with
+  | nil => simp
+  | cons r0 S =>
+    have h0 := h r0 rfl
+    have hs' := List.pairwise_cons.mp hs
+    intro r hr
+    simp at hr
+    rcases hr with hr | hr
+    · subst hr; exact h0
+    · have := hs'.1 r hr; omega
+
+theorem sorted_append {A B : List Run} (h : Sorted (A ++ B)) :
+    Sorted A ∧ Sorted B ∧ ∀ r ∈ A, ∀ r' ∈ B, r.1 < r'.1 := List.pairwise_append.mp h
+
+theorem colourAt_drop_same (T1 T2 : List Run) (c : Colour) (x : Nat) (hs : Sorted (T1 ++ T2))
+    (h : ∀ r ∈ T1, r.2 = c) : colourAt (T1 ++ T2) c x = colourAt T2 c x := by
+  induction T1 with
+  | nil => rfl
+  | cons r T1 ih =>
+    obtain ⟨o, c'⟩ := r
+    have hc : c' = c := h (o, c') (by simp)
+    subst hc
+    have hs' := List.pairwise_cons.mp hs
+    simp only [List.cons_append, colourAt]
+    split
+    · rename_i hx
+      symm
+      apply colourAt_lt_head
+      intro r hr
+      have : r ∈ T1 ++ T2 := by
+        cases T2 with
+        | nil => simp at hr
+        | cons r2 T2 => simp at hr; subst hr; simp
+      have := hs'.1 r this
+      simp at this; omega
+    · exact ih hs'.2 (fun r hr => h r (by simp [hr]))
+
+/-- a run starts with its own colour -/
+theorem abs_at_run (m : BufMap) (hwf : WF m) (o : Nat) (c : Colour) (h : (o, c) ∈ m.runs) : m.abs o = c := by
+  have hlt := hwf.lt_size _ h
+  rw [abs_of_lt m o hlt]
+  obtain ⟨X, Y, hXY⟩ := List.append_of_mem h
+  have hs := hwf.sorted
+  rw [hXY] at hs ⊢
+  obtain ⟨_, hY, hXY'⟩ := sorted_append hs
+  rw [colourAt_append_le X _ _ o (fun r hr => by have := hXY' r hr (o, c) (by simp); simp at this; omega)]
+  simp only [colourAt, Nat.lt_irrefl, if_false]
+  apply colourAt_lt_head
+  intro r hr
+  have hY' := List.pairwise_cons.mp hY
+  have : r ∈ Y := by
+    cases Y with
+    | nil => simp at hr
+    | cons r2 Y => simp at hr; subst hr; simp
+  exact hY'.1 r this
+
+/-! ### the scan and the tail of the result -/
+
+theorem ack_tail (b size : Nat) (all X M T : List Run) (pre0 : Colour) (hall : all = X ++ (M ++ T))
+    (hM : ∀ r ∈ M, r.1 < b ∧ r.2 ≠ .pending) (hT : ∀ r, T.head? = some r → b ≤ r.1) (hb : b ≤ size)
+    (hTs : Sorted T) (hTlt : ∀ r ∈ T, r.1 < size) :
+    ∃ T1 T2 nie, T = T1 ++ T2 ∧
+      ackScan b size all (M ++ T) X.length pre0
+        = .ok (X.length + M.length + T1.length, lastCol M pre0, nie) ∧
+      Sorted ((if nie then some (b, lastCol M pre0) else none).toList ++ T2) ∧
+      (∀ r ∈ (if nie then some (b, lastCol M pre0) else none).toList ++ T2, b ≤ r.1 ∧ r.1 < size) ∧
+      ∀ x, b ≤ x → x < size →
+        colourAt ((if nie then some (b, lastCol M pre0) else none).toList ++ T2) .recved x
+          = colourAt T (lastCol M pre0) x := by
+  rw [ackScan_mid _ _ _ _ _ _ _ hM]
+  generalize lastCol M pre0 = pre
+  have hTall := sorted_head_all T b hTs hT
+  cases T with
+  | nil =>
+    have h : ¬ b > size := by omega
+    refine ⟨[], [], decide (b < size) && pre != .recved, rfl, by simp [ackScan, h, pure, Except.pure], ?_⟩
+    by_cases hn : (decide (b < size) && pre != .recved) = true
+    · simp only [hn, if_true, Option.toList, List.append_nil]
+      simp at hn
+      refine ⟨by simp [Sorted], by simp; omega, ?_⟩
+      intro x hx _
+      have : ¬ x < b := by omega
+      simp [colourAt, this]
+    · simp only [hn, Option.toList, List.append_nil]
+      refine ⟨by simp [Sorted], by simp, ?_⟩
+      intro x hx hxs
+      simp only [colourAt]
+      have : b < size := by omega
+      simp [this] at hn
+      exact hn.symm
+  | cons r T' =>
+    obtain ⟨o, c⟩ := r
+    have ho : b ≤ o := hT (o, c) rfl
+    have h1 : ¬ o < b := by omega
+    by_cases hob : o = b
+    · subst hob
+      obtain ⟨T1, T2, hsplit, hskip, hcol⟩ := skipSame_split .recved ((o, c) :: T') (X.length + M.length)
+      have hdrop : all.drop (X.length + M.length) = (o, c) :: T' := by
+        subst hall
+        rw [← List.append_assoc]
+        exact List.drop_left' (by simp)
+      refine ⟨T1, T2, false, hsplit, ?_, ?_⟩
+      · simp only [ackScan, h1, if_false, if_true, sameAfterP1, hdrop, hskip, pure, Except.pure]
+      · simp only [Bool.false_eq_true, if_false, Option.toList, List.nil_append]
+        rw [hsplit] at hTs
+        refine ⟨(sorted_append hTs).2.1, ?_, ?_⟩
+        · intro r hr
+          have : r ∈ (o, c) :: T' := by rw [hsplit]; simp [hr]
+          exact ⟨hTall r this, hTlt r this⟩
+        · intro x hx _
+          have hnx : ¬ x < o := by omega
+          have : colourAt ((o, c) :: T') pre x = colourAt ((o, c) :: T') .recved x := by
+            simp [colourAt, hnx]
+          rw [this, hsplit]
+          exact (colourAt_drop_same T1 T2 .recved x hTs hcol).symm
+    · have h2 : ¬ o = b := hob
+      refine ⟨[], (o, c) :: T', pre != .recved, rfl, ?_, ?_⟩
+      · simp only [ackScan, h1, h2, if_false, pure, Except.pure, List.length_nil, Nat.add_zero]
+      · by_cases hn : (pre != .recved) = true
+        · simp only [hn, if_true, Option.toList, List.cons_append, List.nil_append]
+          refine ⟨?_, ?_, ?_⟩
+          · refine List.pairwise_cons.mpr ⟨?_, hTs⟩
+            intro r hr
+            have hs' := List.pairwise_cons.mp hTs
+            simp at hr
+            rcases hr with hr | hr
+            · subst hr; simp; omega
+            · have := hs'.1 r hr; simp at this ⊢; omega
+          · intro r hr
+            simp at hr
+            rcases hr with hr | hr
+            · subst hr; have := hTlt (o, c) (by simp); simp at this ⊢; omega
+            · rcases hr with hr | hr
+              · subst hr; exact ⟨ho, hTlt _ (by simp)⟩
+              · exact ⟨hTall r (by simp [hr]), hTlt r (by simp [hr])⟩
+          · intro x hx _
+            have : ¬ x < b := by omega
+            simp only [colourAt, this, if_false]
+        · simp only [hn, Option.toList]
+          simp at hn
+          subst hn
+          exact ⟨hTs, fun r hr => ⟨hTall r hr, hTlt r hr⟩, fun _ _ _ => rfl⟩
+
+/-- the result `H ++ Z` of `ack_rcvd` on `P ++ S`: well-formed, and its abstraction -/
+theorem ack_assemble (m : BufMap) (a b : Nat) (hab : a < b) (hb : b ≤ m.size)
+    (P S H Z T : List Run) (pre : Colour)
+    (hL : m.runs = P ++ S) (hS : ∀ r, S.head? = some r → a ≤ r.1)
+    (hTc : ∀ x, b ≤ x → colourAt m.runs .recved x = colourAt T pre x)
+    (hH1 : Sorted H) (hH2 : ∀ r ∈ H, r.1 ≤ a) (hH3 : lastCol H .recved = .recved)
+    (hH4 : ∀ x, x < a → colourAt H .recved x = colourAt P .recved x)
+    (hZ1 : Sorted Z) (hZ2 : ∀ r ∈ Z, b ≤ r.1 ∧ r.1 < m.size)
+    (hZ3 : ∀ x, b ≤ x → x < m.size → colourAt Z .recved x = colourAt T pre x) :
+    WF { m with runs := H ++ Z } ∧
+      ∀ x, BufMap.abs { m with runs := H ++ Z } x = setRange m.abs a b (fun _ => Colour.recved) x := by
+  have hZhead : ∀ x, x < b → ∀ r, Z.head? = some r → x < r.1 := by
+    intro x hx r hr
+    have : r ∈ Z := by
+      cases Z with
+      | nil => simp at hr
+      | cons r2 Z => simp at hr; subst hr; simp
+    have := (hZ2 r this).1
+    omega
+  refine ⟨⟨?_, ?_⟩, ?_⟩
+  · refine List.pairwise_append.mpr ⟨hH1, hZ1, ?_⟩
+    intro r hr r' hr'
+    have := hH2 r hr
+    have := (hZ2 r' hr').1
+    omega
+  · intro r hr
+    simp at hr
+    rcases hr with hr | hr
+    · have := hH2 r hr; simp; omega
+    · exact (hZ2 r hr).2
+  · intro x
+    by_cases hxs : x < m.size
+    · simp only [BufMap.abs, hxs, if_true, setRange]
+      by_cases hxa : x < a
+      · have : ¬ (a ≤ x ∧ x < b) := by omega
+        simp only [this, if_false]
+        rw [colourAt_append_gt H Z _ x (hZhead x (by omega)), hH4 x hxa, hL,
+          colourAt_append_gt P S _ x (fun r hr => by have := hS r hr; omega)]
+      · rw [colourAt_append_le H Z _ x (fun r hr => by have := hH2 r hr; omega), hH3]
+        by_cases hxb : x < b
+        · have : a ≤ x ∧ x < b := by omega
+          simp only [this, and_self, if_true]
+          exact colourAt_lt_head Z _ x (hZhead x hxb)
+        · have : ¬ (a ≤ x ∧ x < b) := by omega
+          simp only [this, if_false]
+          rw [hZ3 x (by omega) hxs, hTc x (by omega)]
+    · have h1 : ¬ (a ≤ x ∧ x < b) := by omega
+      simp [BufMap.abs, hxs, setRange, h1]
+
 end GmQuic.BufMap
